@@ -5,6 +5,7 @@ import BezierVerif.Basic
 import BezierVerif.Model.Polygon
 import BezierVerif.Model.Sweep
 import BezierVerif.Model.MinDist
+import BezierVerif.Model.Extremes
 import BezierVerif.Gen.Box
 
 namespace ModelDriver
@@ -55,6 +56,44 @@ def mindistNode (n m W : Nat) (eps : ℚ) (best : Option ℚ) (umin umax vmin vm
   | some (.ret t, b) => "ret " ++ showRats [t.1, t.2.1, t.2.2] ++ " " ++ showOptRat b
   | some (.split nu nv, b) => "split " ++ showRats [nu, nv] ++ " " ++ showOptRat b
 
+/-- segments on the wire: `L x0 y0 x1 y1`, `Q` + 6 numbers, `C` + 8 numbers -/
+partial def parseSegs : List String → Option (List (Seg ℚ) × List String)
+  | "L" :: a :: b :: c :: d :: rest => do
+      let a ← parseRat a; let b ← parseRat b; let c ← parseRat c; let d ← parseRat d
+      let (l, r) ← parseSegs rest
+      some (Seg.line ⟨a, b⟩ ⟨c, d⟩ :: l, r)
+  | "Q" :: a :: b :: c :: d :: e :: f :: rest => do
+      let a ← parseRat a; let b ← parseRat b; let c ← parseRat c; let d ← parseRat d; let e ← parseRat e; let f ← parseRat f
+      let (l, r) ← parseSegs rest
+      some (Seg.quad ⟨a, b⟩ ⟨c, d⟩ ⟨e, f⟩ :: l, r)
+  | "C" :: a :: b :: c :: d :: e :: f :: g :: h :: rest => do
+      let a ← parseRat a; let b ← parseRat b; let c ← parseRat c; let d ← parseRat d
+      let e ← parseRat e; let f ← parseRat f; let g ← parseRat g; let h ← parseRat h
+      let (l, r) ← parseSegs rest
+      some (Seg.cubic ⟨a, b⟩ ⟨c, d⟩ ⟨e, f⟩ ⟨g, h⟩ :: l, r)
+  | rest => some ([], rest)
+
+def showSeg : Seg ℚ → String
+  | .line a b => "L " ++ showRats [a.x, a.y, b.x, b.y]
+  | .quad a b c => "Q " ++ showRats [a.x, a.y, b.x, b.y, c.x, c.y]
+  | .cubic a b c d => "C " ++ showRats [a.x, a.y, b.x, b.y, c.x, c.y, d.x, d.y]
+
+def showSegs (l : List (Seg ℚ)) : String := " ".intercalate (l.map showSeg)
+
+def showBox : Option (Extremes.Box ℚ) → String
+  | none => "empty"
+  | some b => "ok " ++ showRats [b.l, b.b, b.r, b.t]
+
+/-- cut lists: `n t1 .. tn` per segment -/
+partial def parseCuts : List String → Option (List (List ℚ))
+  | [] => some []
+  | n :: rest => do
+      let n ← n.toNat?
+      let ts ← (rest.take n).mapM parseRat
+      if ts.length ≠ n then none else
+      let more ← parseCuts (rest.drop n)
+      some (ts :: more)
+
 def handle (name : String) (args : List String) : String :=
   match name with
   | "polygon.signedArea" =>
@@ -82,6 +121,29 @@ def handle (name : String) (args : List String) : String :=
       match MinDist.minBy [(a1, a2, a3), (b1, b2, b3), (c1, c2, c3), (d1, d2, d3)] with
       | some r => "ok " ++ showRats [r.1, r.2.1, r.2.2]
       | none => "none"
+    | _ => "bad-args"
+  | "extremes" =>
+    match parseSegs args with
+    | some ([s], []) => "ok " ++ showRats (Extremes.extremes ratSqrt s)
+    | _ => "bad-args"
+  | "bounds" =>
+    match parseSegs args with
+    | some ([s], []) => showBox (Extremes.bounds ratSqrt s)
+    | _ => "bad-args"
+  | "pathbounds" =>
+    match parseSegs args with
+    | some (l, []) => showBox (Extremes.pathBounds ratSqrt l)
+    | _ => "bad-args"
+  | "splitAtPoints" =>
+    match parseSegs args with
+    | some (l, "|" :: rest) =>
+      match parseCuts rest with
+      | some cuts => "ok " ++ showSegs (Extremes.splitAtPoints l cuts)
+      | none => "bad-args"
+    | _ => "bad-args"
+  | "addExtremes" =>
+    match parseSegs args with
+    | some (l, []) => "ok " ++ showSegs (Extremes.addExtremes ratSqrt l)
     | _ => "bad-args"
   | _ => "nomodel"
 
